@@ -741,6 +741,7 @@ def expand_template(tmpl_text, read_repo, read_include=None):
                         if not re.search(r'derive\([^)]*\b%s\b' % re.escape(tr.strip()), attrs):
                             raise ExtractionError('type %s does not derive %s in %s' % (name, tr.strip(), f))
                     parts[3] = parts[3].replace(md.group(0), '')
+                    report.setdefault('type_notes', {})[name] = 'the template re-derives %s (+ Structural) on the extracted text; checked: the real type derives them, so `==` on it is structural equality' % _unq(md.group(1))
                 for m in re.finditer(_Q + r' => ' + _Q, parts[3]):
                     old, new = _unq(m.group(1)), _unq(m.group(2))
                     if text.count(old) != 1:
@@ -748,7 +749,7 @@ def expand_template(tmpl_text, read_repo, read_include=None):
                     text = text.replace(old, new)
             out.append('// extracted from %s:%d (attributes and doc comments dropped)' % (f, line))
             out.append(text)
-            report['types'].append({'type': name, 'file': f, 'line': line})
+            report['types'].append({'type': name, 'file': f, 'line': line, 'note': report.get('type_notes', {}).get(name, 'attributes and doc comments dropped')})
             i += 1
             continue
         if st.startswith('//@const '):
